@@ -263,6 +263,8 @@ VARIANTS = [
     # ---- rules that had no variant of their own
     V( 'default-truthiness-identity-state', PARSER, "data.state # EtherNet/IP CIP Vol 2, Table 2-4.4:\n if 'state' in data # If not implemented,\n else 0xFF ) # the value shall be 0xFF", "data.get( 'state' ) or 0xFF )", fires=[ 'L-DEFAULT' ] ),
     V( 'default-presence-rewritten', PARSER, "data.state # EtherNet/IP CIP Vol 2, Table 2-4.4:\n if 'state' in data # If not implemented,\n else 0xFF ) # the value shall be 0xFF", "data.get( 'state', 0xFF ))", silent=[ 'L-DEFAULT' ] ),
+    V( 'recv-collects-further-blocks', 'server/network.py', "msg = conn.recv( maxlen ) # b'' (EOF) or b'<data>'", "msg			= conn.recv( maxlen )\n        more			= msg\n        while len( more ) == maxlen:\n            more		= conn.recv( maxlen, socket.MSG_DONTWAIT )\n            msg	       += more", fires=[ 'N-RECV' ] ),
+    V( 'recv-block-size-named', 'server/network.py', "msg = conn.recv( maxlen ) # b'' (EOF) or b'<data>'", "block			= maxlen\n        msg			= conn.recv( block )", silent=[ 'N-RECV' ] ),
     V( 'recv-timeout-as-empty', NETWORK, "@readable( default=None )\ndef recv(", "@readable( default=b'' )\ndef recv(", fires=[ 'N-RECV' ] ),
     V( 'localize-replace-tzinfo', TIMES, "return tzinfo.localize( datetime.datetime( *map( int, terms )), is_dst=is_dst )", "return datetime.datetime( *map( int, terms )).replace( tzinfo=tzinfo )", fires=[ 'T-LOCALIZE' ] ),
     V( 'localize-constant-hint', TIMES, "return tzinfo.localize( datetime.datetime( *map( int, terms )), is_dst=is_dst )", "return tzinfo.localize( datetime.datetime( *map( int, terms )), is_dst=False )", fires=[ 'T-LOCALIZE' ] ),
@@ -591,6 +593,15 @@ VARIANTS = [
     V( 'process-setup-after-parse', LOGIX, "ucmm = setup( **kwds )\n\n source = rememberable()", "source			= rememberable()\n    ucmm			= setup( **kwds )", fires=[ 'C-MAIN' ], why='seed C15 round 6' ),
     V( 'hfiles-glob-pattern', HFILES, "for n in os.listdir( self.dirs or '.' )\n if n == self.name or n.startswith( self.name + '.' )), key=natural ):", "for n in map( os.path.basename, glob.glob( self.path + '*' ))), key=natural ):", fires=[ 'H-FILES' ], why='seed C18 round 6' ),
     V( 'producible-unregister-without-produce', PARSER, "@staticmethod\n def produce( data ):\n \"\"\"UnregisterSession carries no payload.\"\"\"\n return b''", "pass", fires=[ 'L-PRODUCIBLE' ], why='defect BJ reverted' ),
+    V( 'details-looked-up-by-packet-index', GETATTR, "opr,(att,typ,uni) = next( attrtypes )", "opr,(att,typ,uni) = list( opp__att_typ_uni( attributes ))[idx]", fires=[ 'K-DETAILS' ] ),
+    V( 'details-by-result-ordinal', GETATTR, "opr,(att,typ,uni) = next( attrtypes )", "opr,(att,typ,uni) = next( attrtypes ); ordinal = i", silent=[ 'K-DETAILS' ] ),
+    V( 'parameter-value-lowered', GETATTR, "val = tag.split( '=', 1 )[1] if '=' in tag else None", "val		= tag.lower().split( '=', 1 )[1] if '=' in tag else None", fires=[ 'K-DETAILS' ] ),
+    V( 'parameter-split-once', GETATTR, "val = tag.split( '=', 1 )[1] if '=' in tag else None\n prm = tag.split( '=', 1 )[0].strip().lower().replace( ' ', '_' )",
+       "prm,equ,val	= tag.partition( '=' )\n                val		= val if equ else None\n                prm		= prm.strip().lower().replace( ' ', '_' )", silent=[ 'K-DETAILS' ] ),
+    V( 'validate-drops-partial-read', CLIENT, "if reply and reply.status and ( 'write_frag' in reply or 'write_tag' in reply ):", "if reply.status:", fires=[ 'K-READVAL' ] ),
+    V( 'validate-refusal-test-reordered', CLIENT, "if reply and reply.status and ( 'write_frag' in reply or 'write_tag' in reply ):", "if ( 'write_tag' in reply or 'write_frag' in reply ) and reply.status != 0:", silent=[ 'K-READVAL', 'K-VALIDATE' ] ),
+    V( 'main-hands-fragment-to-parser', CLIENT, "recycle( tags, times=repeat ), route_path=route_path, send_path=send_path,", "recycle( tags, times=repeat ), fragment=fragment, route_path=route_path, send_path=send_path,", fires=[ 'T-FRAGTEXT' ] ),
+    V( 'main-names-no-fragment-explicitly', CLIENT, "recycle( tags, times=repeat ), route_path=route_path, send_path=send_path,", "recycle( tags, times=repeat ), fragment=False, route_path=route_path, send_path=send_path,", silent=[ 'T-FRAGTEXT' ] ),
     V( 'validate-refused-write-keeps-data', CLIENT, "if reply and reply.status and ( 'write_frag' in reply or 'write_tag' in reply ):\n val = None # a refused write has no value; its data was only used for the line", "pass", fires=[ 'K-VALIDATE' ], why='defect BK reverted' ),
     V( 'context-index-unbounded', CLIENT, "return str( index % 10**8 ).encode( 'iso-8859-1' )", "return str( index ).encode( 'iso-8859-1' )", fires=[ 'T-CONTEXT' ], why='defect BL reverted' ),
     V( 'context-index-hex', CLIENT, "return str( index % 10**8 ).encode( 'iso-8859-1' )", "return ( '%08x' % ( index & 0xFFFFFFFF )).encode( 'iso-8859-1' )", silent=[ 'T-CONTEXT' ] ),
